@@ -18,6 +18,8 @@ structure FOps (F : Type) where
   gt : F → F → Bool
   lt : F → F → Bool
   bits : F → Nat
+  /-- the double with the given 64-bit pattern (`struct.unpack("<d")`) -/
+  ofBits : Nat → F
   lowest : F    -- np.finfo(float64).min
   highest : F   -- np.finfo(float64).max
   zero : F
